@@ -86,24 +86,59 @@ def images(base: bytes, log, want=None):
                 yield done, bytes(img), (wi, j)
 
 
+def _effective_log(start: bytes, log, path):
+    """the write log as recorded through the stream proxy - unless replaying it over `start` does not give the file now on disk (the
+    implementation wrote past the stream object, e.g. through the descriptor): then the crash model falls back to what every writer is
+    bound to: the bytes that differ from `start` appeared in file order"""
+    final = open(path, "rb").read()
+    img = bytearray(start)
+    for off, data in log:
+        if data is None:
+            if off > len(img):
+                img.extend(b"\0" * (off - len(img)))
+            else:
+                del img[off:]
+        else:
+            if off > len(img):
+                img.extend(b"\0" * (off - len(img)))
+            img[off:off + len(data)] = data
+    if bytes(img) == final:
+        return log
+    cp = 0
+    n = min(len(start), len(final))
+    while cp < n and start[cp] == final[cp]:
+        cp += 1
+    out = []
+    if cp < len(start):
+        out.append((cp, None))
+    out.append((cp, final[cp:]))
+    return out
+
+
 def _recs(pairs, start):
     return [(key(start + i, kl), val(start + i, vl)) for i, (kl, vl) in enumerate(pairs)]
 
 
-def _run_session(path, recs, via):
-    """appends recs to the file at path; returns the write log"""
+def _run_session(path, recs, via, readback=None):
+    """appends recs to the file at path; returns the write log.  With a readback list, every record is also read INSIDE the session
+    right after its put (through the writing handle itself): (key, bytes read or exception) is appended."""
     from molli.storage.ukvfile import UKVFile
 
     if via == "raw":
         f = UKVFile(path, "a")
-        f._stream.flush()
+        # (no flush here: flushing a buffered random-access stream also drops its read-ahead buffer - the harness would hide stale reads)
         start = open(path, "rb").read()   # image after open (a torn tail may have been cut off)
         r = Rec(f._stream)
         f._stream = r
         for k, v in recs:
             f.put(k, v)
+            if readback is not None:
+                try:
+                    readback.append((k, f.get(k)))
+                except Exception as e:  # noqa
+                    readback.append((k, e))
         f.close()
-        return r.log, start
+        return _effective_log(start, r.log, path), start
     from molli.storage import Collection, UkvCollectionBackend
     import atexit
 
@@ -112,16 +147,20 @@ def _run_session(path, recs, via):
     cm = c.writing()
     cm.__enter__()
     f = c._backend._ukvfile
-    f._stream.flush()
     start = open(path, "rb").read()
     r = Rec(f._stream)
     f._stream = r
     try:
         for k, v in recs:
             c[k.decode("ascii")] = v
+            if readback is not None:
+                try:
+                    readback.append((k, c[k.decode("ascii")]))
+                except Exception as e:  # noqa
+                    readback.append((k, e))
     finally:
         cm.__exit__(None, None, None)
-    return r.log, start
+    return _effective_log(start, r.log, path), start
 
 
 def _read_all(path):
@@ -312,10 +351,16 @@ def check(recipe) -> list[Fail]:
             torn = [k for k, _ in sess if k not in visible]
             if reuse_torn and torn:
                 rec2 = [(torn[0], b"REUSED" + bytes([1 + p % 250]))] + rec2
+            rb = []
             try:
-                rlog, rstart = _run_session(wpath, rec2, via)
+                rlog, rstart = _run_session(wpath, rec2, via, readback=rb)
             except Exception as e:
                 fail("R2:recovery-append-raises", repr(e), p)
+                continue
+            bad_rb = [(k, g) for (k, g), (_, v) in zip(rb, rec2) if not (isinstance(g, bytes) and g == v)]
+            if bad_rb:
+                k, g = bad_rb[0]
+                fail("R2:record-read-inside-the-recovery-session-differs", f"key {k[:8]!r}[{len(k)}]: " + (repr(g)[:80] if not isinstance(g, bytes) else f"{len(g)}B read, {len(dict(rec2)[k])}B put"), p)
                 continue
             after_img = open(wpath, "rb").read()
             try:
